@@ -10,7 +10,7 @@ from ._wcommon import (ASSUMPTIONS, COMPONENTS_REAL, COMPONENTS_STUB, Hist, Viol
 from ._wcommon import abstract_states  # noqa: F401,E402
 
 ID = "C03"
-RUNS = {"quick": 6000, "thorough": 150000}
+RUNS = {"quick": 10000, "thorough": 150000}
 BUDGET_S = {"quick": 60, "thorough": 900}
 RULE = ("seeded outcome histories (success, exception, BaseException, timeout, no-result, malformed, unknown, save failure, "
         "failing pre_execute/on_error/post_execute/post_save hook) at random arrival/duration timings, followed by a saturation "
